@@ -250,7 +250,7 @@ impl Ctx {
         let budget_s = std::env::var("QXMC_BUDGET_S")
             .ok()
             .and_then(|s| s.parse::<u64>().ok())
-            .unwrap_or(tier.pick(300, 1500));
+            .unwrap_or(tier.pick(300, 2400));
         Ctx {
             prop,
             tier,
